@@ -134,7 +134,7 @@ def decide(pid, tier, drv):
     known = load_known()
     violations, inconclusive, foreign, known_hits = [], [], [], []
     for r in results:
-        if r["status"] in ("TIMEOUT", "ERROR"):
+        if r["status"] in ("TIMEOUT", "ERROR", "OOM"):
             inconclusive.append((r["harness"], r["status"] + ": " + str(r.get("detail"))))
             continue
         mine = []
